@@ -1,4 +1,4 @@
----- MODULE SparseMatrix_TTrace_1790904005 ----
+---- MODULE SparseMatrix_TTrace_1790904198 ----
 EXTENDS Sequences, SparseMatrix, TLCExt, Toolbox, Naturals, TLC
 
 _expression ==
@@ -35,7 +35,7 @@ _next ==
 \* to `JsonSerialize`. For example, a sub-sequence of _TETrace.
     \* ASSUME
     \*     LET J == INSTANCE Json
-    \*         IN J!JsonSerialize("SparseMatrix_TTrace_1790904005.json", _TETrace)
+    \*         IN J!JsonSerialize("SparseMatrix_TTrace_1790904198.json", _TETrace)
 
 =============================================================================
 
@@ -87,7 +87,7 @@ Parsing and semantic processing can take forever if the trace below is long.
 \*---- MODULE SparseMatrix_TETrace ----
 \*EXTENDS IOUtils, SparseMatrix, TLC
 \*
-\*trace == IODeserialize("SparseMatrix_TTrace_1790904005.bin", TRUE)
+\*trace == IODeserialize("SparseMatrix_TTrace_1790904198.bin", TRUE)
 \*
 \*=============================================================================
 \*
@@ -99,7 +99,7 @@ trace ==
     <<
     ([S |-> [sp |-> <<[R |-> 0, C |-> 0, E |-> {}, row |-> <<>>, col |-> <<>>, at |-> <<>>, blocks |-> {}, free |-> <<>>, nb |-> 0], [R |-> 0, C |-> 0, E |-> {}, row |-> <<>>, col |-> <<>>, at |-> <<>>, blocks |-> {}, free |-> <<>>, nb |-> 0]>>, dn |-> <<[R |-> 0, C |-> 0, B |-> {}]>>]]),
     ([S |-> [sp |-> <<[R |-> 1, C |-> 2, E |-> {}, row |-> <<<<>>>>, col |-> <<<<>>, <<>>>>, at |-> <<>>, blocks |-> {}, free |-> <<>>, nb |-> 0], [R |-> 0, C |-> 0, E |-> {}, row |-> <<>>, col |-> <<>>, at |-> <<>>, blocks |-> {}, free |-> <<>>, nb |-> 0]>>, dn |-> <<[R |-> 0, C |-> 0, B |-> {}]>>]]),
-    ([S |-> [sp |-> <<[R |-> 1, C |-> 2, E |-> {<<0, 0>>}, row |-> <<<<1>>>>, col |-> <<<<1>>, <<>>>>, at |-> <<<<0, 0>>>>, blocks |-> {0}, free |-> <<0>>, nb |-> 1], [R |-> 0, C |-> 0, E |-> {}, row |-> <<>>, col |-> <<>>, at |-> <<>>, blocks |-> {}, free |-> <<>>, nb |-> 0]>>, dn |-> <<[R |-> 0, C |-> 0, B |-> {}]>>]]),
+    ([S |-> [sp |-> <<[R |-> 1, C |-> 2, E |-> {<<0, 1>>}, row |-> <<<<1>>>>, col |-> <<<<>>, <<1>>>>, at |-> <<<<0, 1>>>>, blocks |-> {0}, free |-> <<0>>, nb |-> 1], [R |-> 0, C |-> 0, E |-> {}, row |-> <<>>, col |-> <<>>, at |-> <<>>, blocks |-> {}, free |-> <<>>, nb |-> 0]>>, dn |-> <<[R |-> 0, C |-> 0, B |-> {}]>>]]),
     ([S |-> [sp |-> <<[R |-> 1, C |-> 2, E |-> {}, row |-> <<<<>>>>, col |-> <<<<>>, <<>>>>, at |-> <<>>, blocks |-> {}, free |-> <<0>>, nb |-> 1], [R |-> 0, C |-> 0, E |-> {}, row |-> <<>>, col |-> <<>>, at |-> <<>>, blocks |-> {}, free |-> <<>>, nb |-> 0]>>, dn |-> <<[R |-> 0, C |-> 0, B |-> {}]>>]])
     >>
 ----
@@ -107,7 +107,7 @@ trace ==
 
 =============================================================================
 
----- CONFIG SparseMatrix_TTrace_1790904005 ----
+---- CONFIG SparseMatrix_TTrace_1790904198 ----
 CONSTANTS
     BlockSize = 2
     ResetFreeOnClear = FALSE
@@ -135,4 +135,4 @@ CONSTANT
 ALIAS
     _expression
 =============================================================================
-\* Generated on Fri Oct 02 01:20:06 UTC 2026
+\* Generated on Fri Oct 02 01:23:21 UTC 2026
